@@ -14,6 +14,7 @@ import (
 	"strings"
 	"time"
 
+	"go.sia.tech/core/consensus"
 	"go.sia.tech/core/types"
 	"go.sia.tech/coreutils"
 	"go.sia.tech/coreutils/chain"
@@ -46,34 +47,42 @@ type node struct {
 }
 
 type l2world struct {
-	w     *world
-	chain *chain.Manager
-	main  *node
-	twin  *node
-	batch int
+	w       *world
+	chain   *chain.Manager
+	main    *node
+	twin    *node
+	batch   int
+	network *consensus.Network
+	genesis types.Block
+	blocks  map[types.BlockID]types.Block // every block ever mined, on any fork
+	forkGen int                           // makes the blocks of a competing fork differ from the ones they replace
+	best    []types.Block                 // the best chain, height 1 upwards
 }
 
-func (lw *l2world) openNode(sd *side) *node {
+func (lw *l2world) openNode(sd *side) *node { return lw.openNodeOn(sd, lw.chain) }
+
+// openNodeOn builds the managers of one side on the given chain manager.
+func (lw *l2world) openNodeOn(sd *side, cm *chain.Manager) *node {
 	t := sd.t
 	n := &node{sd: sd}
 	var err error
-	n.wm, err = wallet.NewSingleAddressWallet(hostKey, lw.chain, sd.st)
+	n.wm, err = wallet.NewSingleAddressWallet(hostKey, cm, sd.st)
 	if err != nil {
 		t.Fatal("wallet:", err)
 	}
-	n.cm, err = contracts.NewManager(sd.st, nil, lw.chain, nopSyncer{}, n.wm, contracts.WithRejectAfter(4), contracts.WithRevisionSubmissionBuffer(2))
+	n.cm, err = contracts.NewManager(sd.st, nil, cm, nopSyncer{}, n.wm, contracts.WithRejectAfter(4), contracts.WithRevisionSubmissionBuffer(2))
 	if err != nil {
 		t.Fatal("contracts:", err)
 	}
 	initial := settings.DefaultSettings
 	initial.AcceptingContracts = true
 	initial.NetAddress = "127.0.0.1"
-	n.sm, err = settings.NewConfigManager(hostKey, sd.st, lw.chain, nopSyncer{}, volActions{sd.st}, n.wm,
+	n.sm, err = settings.NewConfigManager(hostKey, sd.st, cm, nopSyncer{}, volActions{sd.st}, n.wm,
 		settings.WithAnnounceInterval(6), settings.WithValidateNetAddress(false), settings.WithInitialSettings(initial))
 	if err != nil {
 		t.Fatal("settings:", err)
 	}
-	n.idx, err = index.VerifNewManual(sd.st, lw.chain, n.cm, n.wm, n.sm, volActions{sd.st}, lw.batch)
+	n.idx, err = index.VerifNewManual(sd.st, cm, n.cm, n.wm, n.sm, volActions{sd.st}, lw.batch)
 	if err != nil {
 		t.Fatal("index:", err)
 	}
@@ -93,7 +102,8 @@ func newL2World(w *world, batch int) *l2world {
 	if err != nil {
 		w.t.Fatal(err)
 	}
-	lw := &l2world{w: w, chain: chain.NewManager(cs, tip), batch: batch}
+	lw := &l2world{w: w, chain: chain.NewManager(cs, tip), batch: batch, network: network, genesis: genesis,
+		blocks: map[types.BlockID]types.Block{}}
 	lw.main, lw.twin = lw.openNode(w.main), lw.openNode(w.twin)
 	return lw
 }
@@ -103,17 +113,170 @@ func (lw *l2world) close() {
 	lw.twin.close()
 }
 
-func (lw *l2world) mine(n int) bool {
+func (lw *l2world) newChain() *chain.Manager {
+	cs, tip, err := chain.NewDBStore(chain.NewMemDB(), lw.network, lw.genesis, nil)
+	if err != nil {
+		lw.w.t.Fatal(err)
+	}
+	return chain.NewManager(cs, tip)
+}
+
+// mineOn mines one block on cm (v1 network: heights stay far below the v2 allow height). The timestamp is never
+// earlier than the parent's (fork blocks carry shifted timestamps) and `shift` seconds later than now.
+func mineOn(cm *chain.Manager, shift int) (types.Block, bool) {
+	cs := cm.TipState()
+	ts := time.Now().Add(time.Duration(shift) * time.Second).Truncate(time.Second)
+	if prev := cs.PrevTimestamps[0]; !ts.After(prev) {
+		ts = prev.Add(time.Second)
+	}
 	addr := types.StandardUnlockHash(hostKey.PublicKey())
+	b := types.Block{ParentID: cs.Index.ID, Timestamp: ts, MinerPayouts: []types.SiacoinOutput{{Value: cs.BlockReward(), Address: addr}}}
+	var weight uint64
+	for _, txn := range cm.PoolTransactions() {
+		if weight += cs.TransactionWeight(txn); weight > cs.MaxBlockWeight() {
+			break
+		}
+		b.Transactions = append(b.Transactions, txn)
+		b.MinerPayouts[0].Value = b.MinerPayouts[0].Value.Add(txn.TotalFees())
+	}
+	if !coreutils.FindBlockNonce(cs, &b, 5*time.Second) {
+		return b, false
+	}
+	return b, cm.AddBlocks([]types.Block{b}) == nil
+}
+
+func (lw *l2world) mine(n int) bool {
 	for i := 0; i < n; i++ {
-		b, ok := coreutils.MineBlock(lw.chain, addr, 5*time.Second)
+		b, ok := mineOn(lw.chain, 0)
 		if !ok {
 			return false
-		} else if err := lw.chain.AddBlocks([]types.Block{b}); err != nil {
+		}
+		lw.blocks[b.ID()] = b
+		lw.best = append(lw.best, b)
+	}
+	return true
+}
+
+// reorg replaces the last `depth` blocks of the best chain by depth+extra blocks of a competing fork mined on
+// a second chain manager (payouts to the host again, so wallet outputs and maturations are reverted).
+func (lw *l2world) reorg(depth, extra int) bool {
+	if depth > len(lw.best) {
+		depth = len(lw.best)
+	}
+	keep := len(lw.best) - depth
+	alt := lw.newChain()
+	if keep > 0 {
+		if err := alt.AddBlocks(lw.best[:keep]); err != nil {
 			return false
 		}
 	}
-	return true
+	lw.forkGen++
+	var fork []types.Block
+	for i := 0; i < depth+extra; i++ {
+		// a fork block mined in the same second as the block it competes with would be the very same block:
+		// the fork's timestamps are shifted by its generation number
+		b, ok := mineOn(alt, lw.forkGen*7+i)
+		if !ok {
+			return false
+		}
+		if _, dup := lw.blocks[b.ID()]; dup {
+			return false
+		}
+		lw.blocks[b.ID()] = b
+		fork = append(fork, b)
+	}
+	if err := lw.chain.AddBlocks(fork); err != nil {
+		return false
+	}
+	lw.best = append(append([]types.Block(nil), lw.best[:keep]...), fork...)
+	return lw.chain.Tip().ID == fork[len(fork)-1].ID()
+}
+
+// pathTo: the blocks from height 1 to the block with the given id (on whatever fork it lies).
+func (lw *l2world) pathTo(id types.BlockID) ([]types.Block, bool) {
+	var rev []types.Block
+	for id != lw.genesis.ID() {
+		b, ok := lw.blocks[id]
+		if !ok {
+			return nil, false
+		}
+		rev = append(rev, b)
+		id = b.ParentID
+	}
+	out := make([]types.Block, len(rev))
+	for i := range rev {
+		out[len(rev)-1-i] = rev[i]
+	}
+	return out, true
+}
+
+// chainView: what depends on the chain position alone (host key fixed): unspent outputs (id, value, maturity),
+// wallet events, wallet balance metrics, announcement, processed tip.
+func chainView(st *sqlite.Store) snapshot {
+	s := snapshot{}
+	us, err := st.UnspentSiacoinElements()
+	var outs []string
+	for _, u := range us {
+		outs = append(outs, fmt.Sprintf("%s/%s/%d", u.ID, u.SiacoinOutput.Value, u.MaturityHeight))
+	}
+	sort.Strings(outs)
+	evs, err2 := st.WalletEvents(0, 1000)
+	var ids []string
+	for _, e := range evs {
+		ids = append(ids, fmt.Sprintf("%s@%d", e.ID, e.Index.Height))
+	}
+	sort.Strings(ids)
+	s["wallet"] = js([]any{outs, errClass(err), ids, errClass(err2)})
+	m, err := st.Metrics(time.Now().Add(time.Hour))
+	s["walletmetrics"] = js([]any{m.Wallet, errClass(err)})
+	tip, err := st.Tip()
+	s["tip"] = js([]any{tip, errClass(err)})
+	ann, err := st.LastAnnouncement()
+	s["announce"] = js([]any{ann, errClass(err)})
+	return s
+}
+
+// stateAt: the chain view of a fresh host that indexed, uninterrupted, exactly the chain ending in `tip`.
+func (lw *l2world) stateAt(tip types.ChainIndex) (snapshot, bool) {
+	cm := lw.newChain()
+	if tip.ID != lw.genesis.ID() && tip != (types.ChainIndex{}) {
+		path, ok := lw.pathTo(tip.ID)
+		if !ok {
+			return nil, false
+		} else if err := cm.AddBlocks(path); err != nil {
+			return nil, false
+		}
+	}
+	sd := openSide(lw.w.t, newDir(lw.w.t, "ref"), false, false)
+	defer sd.destroy()
+	n := lw.openNodeOn(sd, cm)
+	defer n.close()
+	if res := n.sync(); res != "ok" {
+		return nil, false
+	}
+	return chainView(sd.st), true
+}
+
+// checkKill: the database files as they were right after a batch of the sync committed (= what a process killed
+// there leaves). (1) the persisted marker must name the block whose effects the database holds: compare the
+// chain view with a fresh host that indexed the chain ending in that marker; (2) a restarted indexer must
+// converge to the uninterrupted twin.
+func (lw *l2world) checkKill(j int, dir string, twinAfter snapshot) string {
+	sd := openSide(lw.w.t, dir, false, false)
+	defer sd.destroy()
+	integ := sd.integrity()
+	marker, _ := sd.st.Tip()
+	markerOK := "na"
+	var moved []string
+	if ref, ok := lw.stateAt(marker); ok {
+		moved = chainView(sd.st).diff(ref)
+		markerOK = fmt.Sprint(vhlib.B01(len(moved) == 0))
+	}
+	n := lw.openNode(sd)
+	defer n.close()
+	res := n.sync()
+	eq := vhlib.B01(res == "ok" && len(storeSnapshot(sd.st, 0).diff(twinAfter)) == 0)
+	return fmt.Sprintf("%d:%d:%s:%s:%s:%s:%d", j, marker.Height, markerOK, plus(moved), integ, res, eq)
 }
 
 func (n *node) sync() string {
@@ -137,7 +300,13 @@ func (n *node) indexAgrees() bool {
 func (lw *l2world) doSync(tr *vhlib.Trace, p vhlib.ParsedLine, pick func(n int, kinds string) []int) {
 	w := lw.w
 	m := p.Int("mine")
-	if !lw.mine(m) {
+	if _, ok := p.Args["fork"]; ok {
+		// a competing fork replaces the last `fork` blocks (and adds `mine` more): the indexer has to revert
+		if !lw.reorg(p.Int("fork"), m) {
+			tr.Line(p.Raw, "bad=reorg_failed")
+			return
+		}
+	} else if !lw.mine(m) {
 		tr.Line(p.Raw, "bad=mining_failed")
 		return
 	}
@@ -189,9 +358,39 @@ func (lw *l2world) doSync(tr *vhlib.Trace, p vhlib.ParsedLine, pick func(n int, 
 			break
 		}
 	}
-	w.main.inj.Count()
+	// the catch-up run on the main side; with kill=1 the database files are copied right after EVERY batch of it
+	// committed (detected on a second connection: PRAGMA data_version moves when the store's connection commits
+	// a write), whether the batch was reverts-only, mixed or applies-only
+	type kcopy struct {
+		j   int
+		dir string
+	}
+	var kills []kcopy
+	if p.Int("kill") == 1 {
+		ro := w.main.roDB()
+		dataVersion := func() int64 {
+			var v int64
+			_ = ro.QueryRow("PRAGMA data_version").Scan(&v)
+			return v
+		}
+		last := dataVersion()
+		w.main.inj.Hook(func(int) {
+			if v := dataVersion(); v != last {
+				last = v
+				dir := newDir(w.t, "k")
+				copyDB(w.main.dbPath, dir)
+				kills = append(kills, kcopy{len(kills) + 1, dir})
+			}
+		})
+	} else {
+		w.main.inj.Count()
+	}
 	retry := lw.main.sync()
 	w.main.inj.Disarm()
+	var kl []string
+	for _, k := range kills {
+		kl = append(kl, lw.checkKill(k.j, k.dir, twinAfter))
+	}
 	mainAfter := storeSnapshot(w.main.st, 0)
 	rdiff := mainAfter.diff(twinAfter)
 	eq := vhlib.B01(len(rdiff) == 0 && retry == twinRes)
@@ -205,8 +404,8 @@ func (lw *l2world) doSync(tr *vhlib.Trace, p vhlib.ParsedLine, pick func(n int, 
 	}
 	sort.Strings(dl)
 	tr.Count("op:I.SyncDB:" + twinRes)
-	tr.Line(line, fmt.Sprintf("twin=%s n=%d kinds=%s txs=%s f=%s diff=%s cr=[] retry=%s eq=%d rdiff=%s cache=%s integ=%s",
-		twinRes, tres.Points, orDash(tres.Kinds), orDash(tres.Txs), vhlib.FmtList(fs), plus(dl), retry, eq, plus(rdiff), cacheAfter, w.main.integrity()))
+	tr.Line(line, fmt.Sprintf("twin=%s n=%d kinds=%s txs=%s f=%s diff=%s cr=[] kl=%s retry=%s eq=%d rdiff=%s cache=%s integ=%s",
+		twinRes, tres.Points, orDash(tres.Kinds), orDash(tres.Txs), vhlib.FmtList(fs), plus(dl), vhlib.FmtList(kl), retry, eq, plus(rdiff), cacheAfter, w.main.integrity()))
 }
 
 // doIRestart: close the indexer, wallet, contract and settings managers and the store, reopen them on the same
@@ -256,7 +455,7 @@ func (lw *l2world) doIRestart(tr *vhlib.Trace, p vhlib.ParsedLine) {
 // into the wallet, the host's announcement, all through the real syncDB.
 func (g *gen) indexerHistory(rounds int) {
 	r := g.r
-	batch := vhlib.Pick(r, 1, 3, 100)
+	batch := vhlib.Pick(r, 1, 2, 3, 100)
 	g.tr.Line(fmt.Sprintf("reset profile=I batch=%d", batch), "")
 	// the stored settings exist before the managers are created (a ConfigManager only learns about settings
 	// that go through it or that it loads at start)
@@ -265,26 +464,41 @@ func (g *gen) indexerHistory(rounds int) {
 	g.setup(g.addContractLine(true, false))
 	lw := newL2World(g.w, batch)
 	defer lw.close()
+	pick := func(n int, kinds string) []int {
+		// besides the tier's sample: every transaction boundary of the sync (begin and commit calls)
+		set := map[int]bool{}
+		for _, k := range g.pickKs(n) {
+			set[k] = true
+		}
+		for i, c := range kinds {
+			if c == 'b' || c == 'c' {
+				set[i] = true
+			}
+		}
+		var ks []int
+		for k := range set {
+			ks = append(ks, k)
+		}
+		sort.Ints(ks)
+		return ks
+	}
+	lw.doSync(g.tr, parseLine(fmt.Sprintf("op name=I.SyncDB mine=%d restart=0 kill=1", 2+r.Intn(3))), pick)
 	for i := 0; i < rounds; i++ {
-		line := fmt.Sprintf("op name=I.SyncDB mine=%d restart=%d", 1+r.Intn(4), r.Intn(2))
-		lw.doSync(g.tr, parseLine(line), func(n int, kinds string) []int {
-			// besides the tier's sample: every transaction boundary of the sync (begin and commit calls)
-			set := map[int]bool{}
-			for _, k := range g.pickKs(n) {
-				set[k] = true
+		if i%2 == 0 {
+			// a reorg at least as deep as the batch size (so that the first batch only reverts), indexed
+			// uninterrupted with a kill after every batch; no injected errors in this call
+			depth := 1 + r.Intn(3)
+			if batch <= 3 && depth < batch {
+				depth = batch
 			}
-			for i, c := range kinds {
-				if c == 'b' || c == 'c' {
-					set[i] = true
-				}
+			lw.doSync(g.tr, parseLine(fmt.Sprintf("op name=I.SyncDB fork=%d mine=%d restart=0 kill=1 ks=[]", depth, 1+r.Intn(2))), nil)
+		} else {
+			line := fmt.Sprintf("op name=I.SyncDB mine=%d restart=%d kill=%d", 1+r.Intn(4), r.Intn(2), r.Intn(2))
+			if r.Chance(1, 3) {
+				line = fmt.Sprintf("op name=I.SyncDB fork=%d mine=%d restart=%d kill=1", 1+r.Intn(3), 1+r.Intn(2), r.Intn(2))
 			}
-			var ks []int
-			for k := range set {
-				ks = append(ks, k)
-			}
-			sort.Ints(ks)
-			return ks
-		})
+			lw.doSync(g.tr, parseLine(line), pick)
+		}
 		if i == 1 {
 			g.setup(g.addContractLine(r.Chance(1, 2), false))
 		}
